@@ -743,3 +743,29 @@ Theorem lagging_sync_peer_refuted :
   final_tip y = Some 3%N /\ quiescent y = true /\ d_sync (y_eng y) = Some 7%N /\
   (exists n, aget 8%N (y_nodes y) = Some n /\ n_open n = true /\ length (n_chain n) = 5%nat).
 Proof. vm_compute. split; [reflexivity|]. split; [reflexivity|]. split; [reflexivity|]. eexists; repeat split; reflexivity. Qed.
+
+(* ------------------------------------------------------------------------------------------- *)
+(* C07 composition: after a forbidden header or a checkpoint mismatch the store is the one from before the offending
+   header; if that store is (still) a prefix store of an honest chain C, a manager started on it catches up with an
+   honest peer (catchup_linear applies again) *)
+(* ------------------------------------------------------------------------------------------- *)
+Theorem contained_then_converges cfg st p c o pre h post s1 rc1 fin1 gid C q cap res k hints fuel :
+  no_forb (c_forb cfg) (d_store st) ->
+  aget p (d_states st) = Some c -> d_hfm st = true -> aget p (d_objs st) = Some o -> po_conn o = true ->
+  hloop (c_forb cfg) (d_next st) (d_store st) false None pre = HDone s1 rc1 fin1 ->
+  memN (s_id h) (c_forb cfg) = true ->
+  c_disable cfg = false -> good_chain (c_forb cfg) gid C -> cps_ok gid C (c_cps cfg) -> sorted (c_cps cfg) ->
+  (1 <= cap)%nat -> (k <= length C)%nat -> Good gid C k s1 -> (length C - k + 1 <= fuel)%nat ->
+  exists st', on_headers cfg st p (pre ++ h :: post) = (st', [Ban p; Disconnect p]) /\
+  exists y1 t1 y2 t2,
+    y_cmd (y_init cfg gid (d_store st') [(q, node0 C cap res)] hints) (CConnect q) = (y1, t1) /\
+    y_cmd y1 (CRun fuel) = (y2, t2) /\ quiescent y2 = true /\
+    (exists tip t, Inv2 (d_store (y_eng y2)) tip /\ ids (chain (d_store (y_eng y2)) tip) = rev (cids gid C) /\
+                   tipB (d_store (y_eng y2)) = Some t /\ id t = last (cids gid C) gid).
+Proof.
+  intros Hnf Hst Hh Ho Hc Hpre Hf Hdis HC Hcps Hs Hcap Hk HG Hfu.
+  destruct (rejected_peer_dropped_default' cfg st p c o pre h post s1 rc1 fin1 Hnf Hst Hh Ho Hc Hpre Hf) as (st' & E & Es & _).
+  exists st'. split; [exact E|]. rewrite Es.
+  destruct (catchup_linear cfg gid C q cap res k s1 hints fuel Hdis HC Hcps Hs Hcap Hk HG Hfu) as (y1 & t1 & y2 & t2 & E1 & E2 & Hq & Hfin & _).
+  exists y1, t1, y2, t2. auto.
+Qed.
